@@ -2,6 +2,8 @@ package main
 
 import (
 	"bufio"
+	"crypto/sha256"
+	"encoding/hex"
 	"encoding/json"
 	"fmt"
 	"os"
@@ -110,12 +112,31 @@ func (w *workerProc) run(t proto.Task) (*proto.Result, error) {
 		return nil, err
 	}
 	var r proto.Result
-	if err := w.out.Decode(&r); err != nil {
-		return nil, fmt.Errorf("worker died: %v", err)
+	done := make(chan error, 1)
+	go func() { done <- w.out.Decode(&r) }()
+	select {
+	case err := <-done:
+		if err != nil {
+			return nil, fmt.Errorf("worker died: %v", err)
+		}
+	case <-time.After(histTimeout):
+		// A worker replays one history single-threadedly on a fresh instance; that takes
+		// milliseconds to a few seconds. No answer for minutes means the replay blocks for ever
+		// inside the code under test (a lock that is never released, a hand-shake nobody
+		// answers): the wallet would hang at this point. The worker is killed and replaced.
+		w.cmd.Process.Kill()
+		<-done
+		w.n = 1 << 30 // recycled before the next task
+		kh := sha256.Sum256([]byte(strings.Join(t.Hist, ",")))
+		return &proto.Result{Viol: []string{fmt.Sprintf("replaying this history does not return (no answer for %s): the code under test blocks for ever", histTimeout)},
+			KnownTags: []string{"hang"}, Key: "hang:" + hex.EncodeToString(kh[:12]), Outcome: "hang", Info: map[string]int{"hangs": 1}}, nil
 	}
 	w.n++
 	return &r, nil
 }
+
+// histTimeout bounds the replay of ONE history by one worker (see workerProc.run).
+const histTimeout = 300 * time.Second
 
 // runBFS performs a level-synchronous breadth-first search. The parent owns the seen-set
 // and the frontier; every transition is executed by a worker that replays the history on
@@ -141,6 +162,8 @@ func runBFS(bin, scratch string, c bfsCfg) (*bfsOut, error) {
 		idx  int
 		hist []string
 	}
+	hangs := 0
+	const maxHangs = 2
 	pool := make([]*workerProc, c.Workers)
 	defer func() {
 		for _, wp := range pool {
@@ -216,6 +239,14 @@ func runBFS(bin, scratch string, c bfsCfg) (*bfsOut, error) {
 						return
 					}
 					results[j.idx] = r
+					if r.Outcome == "hang" {
+						mu.Lock()
+						hangs++
+						if hangs >= maxHangs {
+							timedOut = true // every further hang costs histTimeout: stop here
+						}
+						mu.Unlock()
+					}
 				}
 			}(wi)
 		}
@@ -226,6 +257,26 @@ func runBFS(bin, scratch string, c bfsCfg) (*bfsOut, error) {
 		if timedOut {
 			out.Exhaustive = false
 			out.CapHit = fmt.Sprintf("deadline %s hit while exploring depth %d; depths < %d complete", c.Deadline, depth, depth)
+			if hangs >= maxHangs {
+				out.CapHit = fmt.Sprintf("stopped at depth %d after %d histories whose replay never returned; depths < %d complete", depth, hangs, depth)
+			}
+			// the level is incomplete, but a violation seen in it is a violation all the same
+			for i, r := range results {
+				if r == nil {
+					continue
+				}
+				if r.Err != "" {
+					return nil, fmt.Errorf("harness error on history %v: %s", level[i], r.Err)
+				}
+				out.Transitions++
+				if len(r.Viol) > 0 {
+					vk := r.Key + "|" + strings.Join(r.Viol, "|")
+					if !violSeen[vk] {
+						violSeen[vk] = true
+						out.Violations = append(out.Violations, violation{Hist: level[i], Viol: r.Viol, Known: r.KnownTags, Detail: r.Detail, Opts: c.Opts})
+					}
+				}
+			}
 			break
 		}
 		var next [][]string
@@ -347,6 +398,7 @@ func runTasks(bin, scratch, model string, opts interface{}, tasks [][]string, wo
 	var mu sync.Mutex
 	var firstErr error
 	timedOut := false
+	hangs := 0
 	if workers > len(tasks) {
 		workers = len(tasks)
 	}
@@ -394,6 +446,14 @@ func runTasks(bin, scratch, model string, opts interface{}, tasks [][]string, wo
 					return
 				}
 				results[j.idx] = r
+				if r.Outcome == "hang" {
+					mu.Lock()
+					hangs++
+					if hangs >= 2 {
+						timedOut = true // every further hang costs histTimeout: stop here
+					}
+					mu.Unlock()
+				}
 			}
 		}(wi)
 	}
